@@ -180,7 +180,12 @@ def _line_infinite_cylinder_intersection(a, b, r, n):
     right:
         second edge of intersection segment (direction n)
     '''
+    # Only the components perpendicular to the symmetry line enter the equations.
+    # Remove the parallel components explicitly; for lines that are almost parallel
+    # to the cylinder they are rounding noise that otherwise dominates the result.
+    b = b - sc.dot(b, a) * a
     nxa = sc.cross(n, a)
+    nxa = nxa - sc.dot(nxa, a) * a
     nxa_square = sc.dot(nxa, nxa)
     parallel_to_cylinder = nxa_square == sc.scalar(0.0, unit=nxa.unit)
     s2 = nxa_square * r**2 - sc.dot(b, nxa) ** 2
